@@ -972,9 +972,18 @@ class WebSocketProtocol13(WebSocketProtocol):
         self, headers: httputil.HTTPHeaders
     ) -> list[tuple[str, dict[str, str]]]:
         extensions = headers.get("Sec-WebSocket-Extensions", "")
+        result = []
         if extensions:
-            return [httputil._parse_header(e.strip()) for e in extensions.split(",")]
-        return []
+            for e in extensions.split(","):
+                name, params = httputil._parse_header(e.strip())
+                # Extension parameters may come without a value (e.g.
+                # client_no_context_takeover); _parse_header only reports
+                # name=value pairs, so add those with a value of None.
+                for p in e.split(";")[1:]:
+                    if "=" not in p and p.strip():
+                        params.setdefault(p.strip().lower(), None)  # type: ignore
+                result.append((name, params))
+        return result
 
     def _process_server_headers(
         self, key: str | bytes, headers: httputil.HTTPHeaders
